@@ -9,6 +9,7 @@ mod bank;
 mod kv;
 mod route;
 mod sexp;
+mod staking;
 mod util;
 mod wasm;
 mod wasm_gen;
@@ -25,6 +26,7 @@ pub fn exec_case(slice: &str, lines: &[String]) -> Vec<String> {
         "bank" => bank::exec_bank(lines),
         "addr" => addr::exec_addr(lines),
         "route" => route::exec_route(lines),
+        "staking" => staking::exec_staking(lines),
         "wasm-legacy" => wasm::exec_wasm_legacy(lines),
         s if s.starts_with("wasm") => wasm::exec_wasm(lines),
         _ => panic!("unknown slice {}", slice),
@@ -49,6 +51,7 @@ pub fn gen_case(slice: &str, rng: &mut Rng, thorough: bool, index: u64) -> Vec<S
         "bank" => bank::gen_bank(rng, thorough),
         "addr" => addr::gen_addr(rng, thorough),
         "route" => route::gen_route(rng, thorough),
+        "staking" => staking::gen_staking(rng, thorough),
         "wasm" => wasm_gen::gen_wasm(rng, thorough),
         "wasm-admin" => wasm_gen2::gen_admin(rng, thorough),
         "wasm-codes" => wasm_gen2::gen_codes(rng, thorough),
